@@ -218,9 +218,16 @@ func (in *Interp) assert(fr *frame, c *Term, msg string) {
 		return
 	}
 	neg := in.ts.Not(c)
-	conj := append(append([]*Term{}, p.PC...), neg)
+	// decide on the slice of the path condition that shares variables with the
+	// assertion; only a violation needs the full condition (for a complete model)
+	conj := append(in.slicePC(neg), neg)
 	in.stats.AssertQ++
 	res := in.check(conj)
+	if res == Sat {
+		in.endQuery()
+		conj = append(append([]*Term{}, p.PC...), neg)
+		res = in.check(conj)
+	}
 	switch res {
 	case Unsat:
 		p.AssertsOK++
